@@ -632,10 +632,12 @@ class Resolver:
                     for name, key in (("double", "double"), ("int64", "int64"), ("intc", "intc"), ("int_", "int_")):
                         if t in (f"{v}.dtype == np.dtype('{name}')", f"{v}.dtype == '{name}'", f"{v}.dtype == np.{name}"):
                             dt = key
-                    if t == f"{v}.flags.c_contiguous":
+                    if t.replace('"', "'") in (f"{v}.flags.c_contiguous", f"{v}.flags['C_CONTIGUOUS']", f"{v}.flags.carray", f"{v}.flags.contiguous", f"{v}.flags['C']"):
                         contig = True
                 if dt is not None:
-                    return {Src(dt, contig, None, f"guarded by '{core.norm(core.src(cur.test), 70)}'")}
+                    # a zero-copy pass-through of a caller's array: the guard is all that is known about it; a guard
+                    # that establishes the dtype but not the C layout lets a Fortran-ordered array through
+                    return {Src(dt, True if contig else False, None, f"guarded by '{core.norm(core.src(cur.test), 70)}'" + ("" if contig else " (the guard does not establish C-contiguity)"))}
             child, cur = cur, getattr(cur, "_parent", None)
         return None
 
